@@ -113,11 +113,17 @@ func zzSpecAccept(cfg *zzCfg, hasDot bool, k, s string) bool {
 
 // zzConfig chooses the secret configuration: global secret of one of the five lengths,
 // 0..2 rotated secrets; "alias" makes the first rotated secret share its first 32 bytes with the global one.
+// level -1: one fixed configuration;
 // level 0 (small): global of the five lengths, at most one rotated secret of 31 or 32 bytes;
-// level 1 (quick): rotated lengths {31,32,40} for the first and 32 for the second rotated secret, alias;
+// level 1 (quick): rotated lengths {31,32,40} for the first and 32 for the second rotated secret, alias for the 40-byte one;
 // level 2 (thorough): three hash functions, all five lengths for every secret, alias.
 func zzConfig(level int) *zzCfg {
 	cfg := &zzCfg{}
+	if level < 0 {
+		// one fixed configuration: 40-byte global secret, one 32-byte rotated secret
+		cfg.global, cfg.rotated = zzKey(0, 40), [][]byte{zzKey(1, 32)}
+		return cfg
+	}
 	if level >= 2 {
 		cfg.hasher = zzHasherChoice()
 	}
@@ -137,7 +143,7 @@ func zzConfig(level int) *zzCfg {
 			l = []int{31, 32, 40}[zz.Choice("rotLen", 3)]
 		}
 		idx := i + 1
-		if i == 0 && zz.Choice("alias", 2) == 1 {
+		if i == 0 && (level >= 2 || l == 40) && zz.Choice("alias", 2) == 1 {
 			idx = 0
 		}
 		cfg.rotated = append(cfg.rotated, zzKey(idx, l))
@@ -214,18 +220,20 @@ func ZZ_C06_hmac_validate_free() {
 
 // ZZ_C06_hmac_validate_minted: K symbolic, signature computed under a chosen key.
 func ZZ_C06_hmac_validate_minted() {
-	variant := zz.Choice("variant", 5)
-	lvl := zzLevel()
-	if variant != 0 {
-		lvl-- // the tampered variants do not depend on the key order
-	}
-	cfg := zzConfig(lvl)
-	keys := zzExamined(cfg)
+	// the symbolic random part first, so that its assumptions are decided once and not per configuration
 	L := 2 * zzSegLen()
 	K := zz.StringEx("k", L, ".")
 	dk, err := zzB64.DecodeString(K)
 	zz.Assume(err == nil)
 	zz.Assume(K != "")
+
+	variant := zz.Choice("variant", 5)
+	lvl := zzLevel()
+	if variant != 0 {
+		lvl -= 2 // the tampered variants do not depend on the key order
+	}
+	cfg := zzConfig(lvl)
+	keys := zzExamined(cfg)
 
 	// minting key: one of the examined keys (a short one as its zero-padded array image) or a foreign key
 	j := zz.Choice("mintkey", len(keys)+1)
@@ -272,11 +280,14 @@ func ZZ_C06_hmac_validate_minted() {
 		zz.Cover("minted:extra-segment", true)
 	case 2: // stored signature with a different random part
 		K2 := zz.StringEx("k", L, ".")
-		_, err2 := zzB64.DecodeString(K2)
+		dk2, err2 := zzB64.DecodeString(K2)
 		zz.Assume(err2 == nil)
 		zz.Assume(K2 != "")
-		// K2 differs from K in more than the ignored trailing bits of the last character
-		zz.Assume(len(K2) != len(K) || K2[:len(K2)-1] != K[:len(K)-1])
+		// K2 differs from K in length or in its first character (of at least two), hence in the decoded bytes
+		// (only trailing bits of the last character are ignored by the decoder); the second assumption is
+		// the consequence the engine works with (base64 decoding is uninterpreted there)
+		zz.Assume(len(K2) != len(K) || K2[0] != K[0])
+		zz.Assume(!gohmac.Equal(dk2, dk))
 		zzTampered(cfg, strat, K2, S, "stored signature with a different random part")
 		zz.Cover("minted:other-random-part", true)
 	case 3: // signature part extended
@@ -300,3 +311,197 @@ func zzTampered(cfg *zzCfg, strat *HMACStrategy, k, s, what string) {
 	zz.Assert(err != nil, what+": rejected")
 }
 
+
+// ---- concrete tokens from the real generator, byte-level tampering
+
+func zzSplit1(tok string) (string, string) {
+	i := strings.IndexByte(tok, '.')
+	return tok[:i], tok[i+1:]
+}
+
+func zzFlip(b []byte, pos int, mask byte) []byte {
+	out := append([]byte(nil), b...)
+	out[pos] ^= mask
+	return out
+}
+
+// zzReencode changes only the ignored trailing bits of the last character of a 43-character part.
+func zzReencode(part string) string {
+	const alpha = "ABCDEFGHIJKLMNOPQRSTUVWXYZabcdefghijklmnopqrstuvwxyz0123456789-_"
+	last := part[len(part)-1]
+	i := strings.IndexByte(alpha, last)
+	// length 43 = 4*10+3: the last character carries 4 data bits and 2 spare bits
+	return part[:len(part)-1] + string(alpha[i^1])
+}
+
+// ZZ_C06_hmac_tamper: every listed mutation of a minted token is refused (re-encoding of the same
+// decoded bytes excepted: the statement speaks about the decoded parts), under the current and a rotated secret.
+func ZZ_C06_hmac_tamper() {
+	ctx := context.Background()
+	cfg := &zzCfg{global: zzKey(0, 32+8*zz.Choice("glen", 2))}
+	// the token is minted either under the current global secret or under a secret that has since been rotated out
+	mintCfg := cfg
+	if zz.Choice("mintedUnder", 2) == 1 {
+		old := zzKey(1, 40)
+		mintCfg = &zzCfg{global: old}
+		cfg.rotated = [][]byte{zzKey(2, 32), old}
+	}
+	foreign := &HMACStrategy{Config: &zzCfg{global: zzKey(5, 32)}}
+	mint := &HMACStrategy{Config: mintCfg}
+	strat := &HMACStrategy{Config: cfg}
+
+	t1, s1, err := mint.Generate(ctx)
+	zz.Assert(err == nil, "mint 1")
+	t2, s2, err := mint.Generate(ctx)
+	zz.Assert(err == nil, "mint 2")
+	k1, sg1 := zzSplit1(t1)
+	k2, sg2 := zzSplit1(t2)
+	zz.Assert(sg1 == s1 && sg2 == s2, "signature return value = second part")
+	dk1, _ := zzB64.DecodeString(k1)
+	ds1, _ := zzB64.DecodeString(sg1)
+	zz.Assert(len(dk1) == 32 && len(ds1) == 32, "32 random bytes, 32 MAC bytes")
+
+	present := func(k, s string, wantReject bool, what string) {
+		err := strat.Validate(ctx, k+"."+s)
+		zz.Observe("ok", err == nil)
+		zz.Assert((err == nil) == zzSpecAccept(cfg, true, k, s), what+": Validate == specification")
+		if wantReject {
+			zz.Assert(err != nil, what+": rejected")
+		} else {
+			zz.Assert(err == nil, what+": accepted")
+		}
+	}
+
+	switch zz.Choice("kind", 12) {
+	case 0:
+		present(k1, sg1, false, "untampered")
+		present(k2, sg2, false, "untampered second")
+		zz.Cover("tamper:untampered-accepted", true)
+	case 1:
+		pos, mask := zz.Choice("pos", 32), []byte{0x01, 0x10, 0x80}[zz.Choice("mask", 3)]
+		present(k1, zzB64.EncodeToString(zzFlip(ds1, pos, mask)), true, "bit flip in the signature")
+		zz.Cover("tamper:sig-bitflip", true)
+	case 2:
+		pos, mask := zz.Choice("pos", 32), []byte{0x01, 0x10, 0x80}[zz.Choice("mask", 3)]
+		present(zzB64.EncodeToString(zzFlip(dk1, pos, mask)), sg1, true, "bit flip in the random part")
+		zz.Cover("tamper:key-bitflip", true)
+	case 3:
+		// every strict prefix of the token string
+		n := zz.Choice("cut", len(t1))
+		err := strat.Validate(ctx, t1[:n])
+		zz.Assert(err != nil, "truncated token: rejected")
+		zz.Cover("tamper:truncated", true)
+	case 4:
+		present(k1, sg2, true, "signature of another token")
+		present(k2, sg1, true, "random part of another token")
+		present(sg1, k1, true, "parts swapped")
+		zz.Cover("tamper:swapped", true)
+	case 5:
+		// same decoded bytes, different spelling: accepted by Validate (decoded parts are unchanged);
+		// the storage key (Signature) changes with the spelling of the signature part
+		rs, rk := zzReencode(sg1), zzReencode(k1)
+		drs, _ := zzB64.DecodeString(rs)
+		drk, _ := zzB64.DecodeString(rk)
+		zz.Assert(rs != sg1 && rk != k1 && string(drs) == string(ds1) && string(drk) == string(dk1), "re-encoding keeps the decoded bytes")
+		present(k1, rs, false, "re-encoded signature part")
+		present(rk, sg1, false, "re-encoded random part")
+		zz.Assert(strat.Signature(k1+"."+rs) != s1, "re-encoded signature part has another storage key")
+		zz.Cover("tamper:reencoded-same-bytes", true)
+	case 6:
+		c := string("Aa0-_"[zz.Choice("ch", 5)])
+		present(k1, sg1+c, true, "character appended to the signature")
+		present(k1+c, sg1, true, "character appended to the random part")
+		present(k1, c+sg1, true, "character prepended to the signature")
+		zz.Cover("tamper:extended", true)
+	case 7:
+		tf, _, err := foreign.Generate(ctx)
+		zz.Assert(err == nil, "foreign mint")
+		kf, sf := zzSplit1(tf)
+		present(kf, sf, true, "token minted under a foreign secret")
+		present(k1, sf, true, "foreign signature on a minted random part")
+		zz.Cover("tamper:foreign-secret", true)
+	case 8:
+		// a comparison of a MAC prefix, or of the MAC with a prefix of the presented bytes, must not suffice
+		n := []int{1, 8, 16, 31}[zz.Choice("keep", 4)]
+		pad := make([]byte, 32-n)
+		present(k1, zzB64.EncodeToString(append(append([]byte(nil), ds1[:n]...), pad...)), true, "MAC prefix padded with zeros")
+		present(k1, zzB64.EncodeToString(ds1[:n]), true, "MAC prefix")
+		present(k1, zzB64.EncodeToString(append(append([]byte(nil), ds1...), 0)), true, "MAC with a trailing byte")
+		zz.Cover("tamper:mac-prefix", true)
+	case 9:
+		for _, bad := range []string{"", ".", k1, k1 + ".", "." + sg1, t1 + ".", t1 + "." + sg1, "." + t1, k1 + ".." + sg1, k1 + " ." + sg1, t1 + "="} {
+			zz.Assert(strat.Validate(ctx, bad) != nil, "malformed variants rejected")
+		}
+		zz.Assert(strat.Signature(t1+"."+sg1) == "" && strat.Signature(k1) == "", "Signature empty unless exactly one dot")
+		zz.Cover("tamper:malformed", true)
+	case 10:
+		// the rotated-out secret is no longer known at all
+		other := &HMACStrategy{Config: &zzCfg{global: zzKey(0, 40), rotated: [][]byte{zzKey(2, 32)}}}
+		err := other.Validate(ctx, t1)
+		if mintCfg == cfg {
+			zz.Assert(err == nil, "same first 32 bytes of the global secret: accepted")
+		} else {
+			zz.Assert(err != nil, "token under a secret that is neither current nor rotated: rejected")
+			zz.Cover("tamper:unknown-secret", true)
+		}
+	case 11:
+		// a short rotated secret placed before the matching one stops validation with an error
+		if mintCfg != cfg {
+			short := &HMACStrategy{Config: &zzCfg{global: cfg.global, rotated: [][]byte{zzKey(3, 31), cfg.rotated[1]}}}
+			zz.Assert(short.Validate(ctx, t1) != nil, "short rotated secret before the matching one: error")
+			late := &HMACStrategy{Config: &zzCfg{global: cfg.global, rotated: [][]byte{cfg.rotated[1], zzKey(3, 31)}}}
+			zz.Assert(late.Validate(ctx, t1) == nil, "matching rotated secret before a short one: accepted")
+			zz.Cover("tamper:short-rotated-order", true)
+		}
+	}
+}
+
+// ZZ_C06_hmac_generate: shape, entropy, key-length rule and freshness of Generate; GenerateHMACForString.
+func ZZ_C06_hmac_generate() {
+	ctx := context.Background()
+	entropy := []int{-1, 0, 16, 31, 32, 33, 48, 64}[zz.Choice("entropy", 8)]
+	glen := zzKeyLens[zz.Choice("globalLen", len(zzKeyLens))]
+	cfg := &zzCfg{entropy: entropy, global: zzKey(0, glen), hasher: zzHasherChoice()}
+	if zz.Choice("withRotated", 2) == 1 {
+		cfg.rotated = [][]byte{zzKey(1, 32)}
+	}
+	strat := &HMACStrategy{Config: cfg}
+
+	text := zz.String("text", 8)
+	hs, herr := strat.GenerateHMACForString(ctx, text)
+	tok, sig, err := strat.Generate(ctx)
+	tok2, sig2, err2 := strat.Generate(ctx)
+	zz.Observe("generate.ok", err == nil)
+	if glen < 32 {
+		zz.Cover("generate:short-secret-refused", true)
+		zz.Assert(err != nil && err2 != nil && herr != nil, "secret shorter than 32 bytes is refused")
+		zz.Assert(tok == "" && sig == "" && hs == "", "no token on error")
+		return
+	}
+	zz.Assert(err == nil && err2 == nil && herr == nil, "secret of at least 32 bytes mints")
+	zz.Assert(hs == zzB64.EncodeToString(zzMac(cfg.hasher, cfg.global[:32], []byte(text))), "GenerateHMACForString = b64(mac(secret[:32], text))")
+
+	parts := strings.Split(tok, ".")
+	zz.Assert(len(parts) == 2, "token has exactly one dot")
+	zz.Assert(parts[1] == sig, "signature return value = second part")
+	r, derr := zzB64.DecodeString(parts[0])
+	zz.Assert(derr == nil, "random part decodable")
+	want := 32
+	if entropy > want {
+		want = entropy
+	}
+	zz.Observe("entropy", len(r))
+	zz.Assert(len(r) == want, "random part has max(32, configured entropy) bytes")
+	zz.Assert(parts[0] == zzB64.EncodeToString(r), "random part canonically encoded")
+	zz.Assert(sig == zzB64.EncodeToString(zzMac(cfg.hasher, cfg.global[:32], r)), "signature = b64(mac(secret[:32], r))")
+	zz.Assert(strat.Signature(tok) == sig, "Signature(token) = signature")
+	zz.Assert(strat.Validate(ctx, tok) == nil, "minted token validates")
+
+	// freshness (A-rand: the random source returns distinct bytes): distinct random parts, tokens and signatures
+	p2 := strings.Split(tok2, ".")
+	zz.Assert(len(p2) == 2 && p2[0] != parts[0], "two mints have distinct random parts")
+	zz.Assert(tok2 != tok && sig2 != sig, "two mints differ in token and signature")
+	zz.Cover("generate:minted", true)
+	zz.Cover("generate:entropy-raised-to-32", entropy < 32)
+	zz.Cover("generate:entropy-above-32", entropy > 32)
+}
